@@ -107,6 +107,14 @@ const (
 	Reflect
 )
 
+// maxGradientRepeats bounds the number of times a repeating gradient is repeated along
+// the gradient line: beyond it the period is far below the resolution of any output and
+// the gradient is rendered as its average color, as
+// https://drafts.csswg.org/css-images-3/#repeating-gradients requires
+// (repeating it stop by stop would need an unbounded number of color stops, and does not
+// even terminate once the period is smaller than the float32 spacing of the positions).
+const maxGradientRepeats = 10000
+
 // LinearGradient handle spread (repeat) for linear gradients
 // It is used for SVG and CSS gradient rendering.
 func (spread GradientSpread) LinearGradient(positions []Fl, colors []parser.RGBA, x1, y1, dx, dy, vectorLength Fl) backend.GradientLayout {
@@ -114,7 +122,8 @@ func (spread GradientSpread) LinearGradient(positions []Fl, colors []parser.RGBA
 	if spread != NoRepeat {
 		// Render as a solid color if the first and last positions are equal
 		// See https://drafts.csswg.org/css-images-3/#repeating-gradients
-		if first == last {
+		// (or if their distance is too small for the gradient to be rendered faithfully)
+		if first == last || (last-first)*maxGradientRepeats < vectorLength {
 			color := gradientAverageColor(colors, positions)
 			return backend.GradientLayout{ScaleY: 1, GradientKind: backend.GradientKind{Kind: "solid"}, Colors: []parser.RGBA{color}}
 		}
@@ -173,8 +182,9 @@ func (spread GradientSpread) LinearGradient(positions []Fl, colors []parser.RGBA
 func (spread GradientSpread) RadialGradient(positions []Fl, colors []parser.RGBA, fx, fy, fr, cx, cy, r, width, height Fl) backend.GradientLayout {
 	first, last := normalizeStopPositions(positions)
 
-	if spread != NoRepeat && first == last {
+	if spread != NoRepeat && (first == last || (r-fr)*(last-first)*maxGradientRepeats < utils.Hypot(width, height)) {
 		// Render as a solid color if the first and last positions are equal
+		// (or if their distance is too small for the gradient to be rendered faithfully)
 		// See https://drafts.csswg.org/css-images-3/#repeating-gradients
 		color := gradientAverageColor(colors, positions)
 		return backend.GradientLayout{ScaleY: 1, GradientKind: backend.GradientKind{Kind: "solid"}, Colors: []parser.RGBA{color}}
